@@ -160,12 +160,18 @@ def reconstruct_db(events, upto_event_idx, names):
     return db
 
 
-def eval_body(atoms, tid_of, db, small_only=True, new_since=None, head=None, include_subsumed=False):
+class TooMany(Exception):
+    pass
+
+
+def eval_body(atoms, tid_of, db, small_only=True, new_since=None, head=None, include_subsumed=False, limit=None,
+              small_head=False):
     """meaning of the body on a concrete database -> set of head tuples (default head: every variable,
     sorted by name).  small_only: ignore profile rows (sound only when every atom shares a variable with the
     head; callers pass False otherwise).  Index nested-loop join: rows of each atom are indexed on the
     positions already bound when the atom is reached."""
     vs = head if head is not None else gen.body_vars(atoms)
+    hset = set(vs)
     res = set()
     prim_atoms = [a for a in atoms if a.kind == "prim"]
     atoms = [a for a in atoms if a.kind != "prim"]
@@ -222,6 +228,8 @@ def eval_body(atoms, tid_of, db, small_only=True, new_since=None, head=None, inc
                 env = apply_prims(env)
                 if env is not None:
                     res.add(tuple(env[v] for v in vs))
+                    if limit is not None and len(res) > limit:
+                        raise TooMany()
             return
         ents, bpos = plans[i]
         probe = tuple(ents[p][1] if ents[p][0] == "c" else env[ents[p][1]] for p in bpos)
@@ -235,6 +243,9 @@ def eval_body(atoms, tid_of, db, small_only=True, new_since=None, head=None, inc
                             ok = False
                             break
                     else:
+                        if small_head and e[1] in hset and not gen.is_small(row[pos]):
+                            ok = False  # only head tuples in the small range are wanted: prune as soon as one is not
+                            break
                         if e2 is env:
                             e2 = dict(env)
                         e2[e[1]] = row[pos]
@@ -1001,7 +1012,7 @@ def replay_witness(binary, workdir, tag, atoms, no_decomp, profile, wit, rule_re
         cdb = witness_db(wit, tid_of, upto_ts=phase_mid)  # phase_mid: the database as it stood at the first run
         if projecting:
             exp |= {t for t in eval_body(atoms, tid_of, merged(profile_db(atoms, profile, seed, tid_of), cdb),
-                                         small_only=False, head=head) if all_small(t)}
+                                         small_only=False, head=head, small_head=True) if all_small(t)}
         else:
             exp |= eval_body(atoms, tid_of, cdb, head=head)
     note += "real Out (small range): %s\nexpected (nested-loop meaning of the body at each run): %s\n" % (sorted(real), sorted(exp))
@@ -1131,20 +1142,25 @@ def work_item(args):
             pdb = profile_db(atoms, profile, seed, ident)
             for rs, (outrel, ropts) in sorted(rules.items()):
                 ef = set()
-                for k_ in [k_ for k_, r_ in enumerate(schedule) if r_ == rs or r_ == "all"]:
-                    # union over the runs: with merge functions a match of an earlier run may no longer hold later
-                    ef |= eval_body(atoms, ident, merged(pdb, db_at_step(placed, k_, None, ident, 0)), small_only=False, head=head)
-                    if len(ef) > 30000:
-                        break
-                if len(ef) <= 30000:
-                    exp_full[outrel] = ef
+                try:
+                    for k_ in [k_ for k_, r_ in enumerate(schedule) if r_ == rs or r_ == "all"]:
+                        # union over the runs: with merge functions a match of an earlier run may no longer hold later
+                        ef |= eval_body(atoms, ident, merged(pdb, db_at_step(placed, k_, None, ident, 0)), small_only=False,
+                                        head=head, limit=30000)
+                    if len(ef) <= 30000:
+                        exp_full[outrel] = ef
+                except TooMany:
+                    pass
             if companion:
                 ef = set()
-                for k_ in [k_ for k_, r_ in enumerate(schedule) if r_ == companion[2]]:
-                    ef |= eval_body(companion[0], ident, merged(pdb, db_at_step(placed, k_, None, ident, 0)), small_only=False,
-                                    head=companion[1])
-                if len(ef) <= 30000:
-                    exp_full["OutC"] = ef
+                try:
+                    for k_ in [k_ for k_, r_ in enumerate(schedule) if r_ == companion[2]]:
+                        ef |= eval_body(companion[0], ident, merged(pdb, db_at_step(placed, k_, None, ident, 0)), small_only=False,
+                                        head=companion[1], limit=30000)
+                    if len(ef) <= 30000:
+                        exp_full["OutC"] = ef
+                except TooMany:
+                    pass
             for o in sorted(exp_full):
                 tail = (tail or []) + ["(print-function %s 40000)" % o, "(print-size %s)" % o]
         text = gen.render_program(atoms, no_decomp, profile, steps, seed=seed, rules=rules, head=head, tail=tail, companion=companion)
@@ -1186,7 +1202,8 @@ def work_item(args):
         def meaning(cdb, **kw):
             # with a projecting head, profile rows can match atoms that share no variable with the head
             if V.projecting:
-                return {t for t in eval_body(atoms, V.tid_of, merged(base, cdb), small_only=False, head=head, **kw) if all_small(t)}
+                return {t for t in eval_body(atoms, V.tid_of, merged(base, cdb), small_only=False, head=head, small_head=True, **kw)
+                        if all_small(t)}
             return eval_body(atoms, V.tid_of, cdb, head=head, **kw)
         pin_ok = ((not V.projecting) or not any(base.values())) and not res["unions"]
         sev = step_events(events, None)
@@ -1307,7 +1324,10 @@ def work_item(args):
         if prop == "C13":
             final = db_at_step(placed, len(schedule), None, V.tid_of, 0)
             fullbase = profile_db(atoms, profile, seed, V.tid_of)
-            holds = bool(eval_body(atoms, V.tid_of, merged(fullbase, final), small_only=False, head=[], include_subsumed=True))
+            try:
+                holds = bool(eval_body(atoms, V.tid_of, merged(fullbase, final), small_only=False, head=[], include_subsumed=True, limit=0))
+            except TooMany:
+                holds = True  # one match is enough
             res["sanity"].append({"tag": tag, "check_expected": holds, "check_real": not check_failed, "agree": holds != check_failed})
             if holds == check_failed:
                 art = os.path.join(workdir, tag + ".check.txt")
@@ -1419,12 +1439,35 @@ C03_SHAPES_QUICK = {"one", "chain2", "self2", "fn_chain", "fn_dup", "triangle", 
                     "g_rep", "p_chain2", "p_tri", "k_nest1", "k_chain", "k_dup_key", "f_lt_link", "f_add_join"}
 
 
+def is_cross(body):
+    """the body's table atoms fall into more than one connected component (a cross product): its output grows with
+    the product of the table sizes, so it only gets the small profiles"""
+    atoms = [a for a in gen.parse_body(body) if a.kind != "prim"]
+    comp = list(range(len(atoms)))
+
+    def find(i):
+        while comp[i] != i:
+            i = comp[i]
+        return i
+    vs = [{e[1] for e in a.args + ([a.ret] if a.ret else []) if e[0] == "v"} for a in atoms]
+    for i in range(len(atoms)):
+        for j in range(i):
+            if vs[i] & vs[j]:
+                comp[find(i)] = find(j)
+    return len({find(i) for i in range(len(atoms))}) > 1
+
+
+def small_profile(p):
+    return p[1] <= 120 and all(v <= 400 for v in p[2].values())
+
+
 def configs_for(prop, tier, seed):
     quick = tier == "quick"
     shapes = [(sid, body) for sid, body, tag in gen.SHAPES if (not quick) or tag == "q"]
     profiles = gen.PROFILES_QUICK if quick else gen.PROFILES_THOROUGH
     seeds = [seed] if quick else [seed, seed + 1, seed + 2]
     items = []
+    all_profiles = profiles
     if prop == "C02":
         rules = {"main": ("Out", "")}
         for sid, body in shapes:
@@ -1462,6 +1505,7 @@ def configs_for(prop, tier, seed):
             items.append((sid, body, cfgs))
     else:
         raise SystemExit("no E2 configuration for " + prop)
+    items = [(sid, body, [c for c in cfgs if small_profile(c[1]) or not is_cross(body)]) for sid, body, cfgs in items]
     return items, shapes, profiles, seeds
 
 
